@@ -98,6 +98,19 @@ Eval(e) ==
 (* "value" contexts deliver the value; "test" contexts (=:=) deliver a truth value against a    *)
 (* probe number p and must be true exactly if Eval(e) is numerically equal to p, or raise the   *)
 (* error of e.                                                                                  *)
+(*   inline   i(X) :- X is E.                           compiled arithmetic instructions          *)
+(*   var      v(X) :- T = E, X is T.                    run-time walk of a heap term              *)
+(*   findall  f(X) :- findall(Y, Y is E, L), L = [X].   goal copied and called                    *)
+(*   assert   a(X) :- assertz((d(Y) :- Y is E)), d(X).  compiled at run time                      *)
+(*   call     c(X) :- G = (X is E), call(G).            is/2 as a called predicate                *)
+(*   catch    ?- catch(X is E, error(Err,_), true).     a query                                   *)
+(*   nested   n(X) :- X is +(E).                        sub-expression of a compiled expression   *)
+(*   mixed    m(X) :- A = E1, B = E2, X is op(A, B).    compiled operator, operands fetched from  *)
+(*                                                      registers holding terms (get_number)      *)
+(*   cmp_l    l(P) :- E =:= P.      cmp_r   r(P) :- P =:= E.                                      *)
+(* A clause whose expression contains a literal non-evaluable atom or functor is rejected when it *)
+(* is loaded, with error(Formal, load/1): that Formal is the outcome of the context (for          *)
+(* "assert" it is raised by assertz/1 at run time).                                               *)
 ValueContexts == {"inline", "var", "findall", "assert", "call", "catch", "nested", "mixed"}
 TestContexts  == {"cmp_l", "cmp_r"}
 Contexts      == ValueContexts \cup TestContexts
